@@ -8,7 +8,8 @@ ops     := concat n M_1 … M_n | export_idx M k i_1 … i_k | export_sub M labe
          | fill M value size|N append | fill_taxa M | pack M value size|N append
          | add|replace|update|extend|extend_new|extend_matrix M O
          | remove|discard|keep M k t_1 … t_k
-answers := `ok [size] R taxon=c.c.c … S label=i.i …` (rows sorted by taxon) | `ValueError` | `KeyError [R … S …]` | `IndexError` -/
+answers := `ok [size] R taxon=c.c.c … S label=i.i …` (rows sorted by taxon: the dict's insertion order is not part of the
+           statement — it only decides `sequence_size` of ragged matrices — and is deliberately not compared) | `ValueError` | `KeyError [R … S …]` | `IndexError` -/
 
 abbrev P := StateT (List String) Option
 
